@@ -3,6 +3,7 @@ package main
 import (
 	"fmt"
 	"go/types"
+	"sort"
 	"strings"
 
 	"golang.org/x/tools/go/ssa"
@@ -248,9 +249,38 @@ func (e *Exec) applyContract(fr *frame, st *State, ci ssa.CallInstruction, calle
 			e.oblige(st, fmt.Sprintf("%s/decreases:%s", cname, sp.Name), e.propsFor(fr, "safety"), And(Lt(m.L[0], m0.L[0]), Ge(m0.L[0], IntLit(0))), e.ld.pos(ci.Pos()))
 		}
 	}
+	allocPre := st.alloc
 	na := e.ctx.fresh("alloc", SInt)
 	st.pc = append(st.pc, Ge(na, st.alloc))
 	st.alloc = na
+	// classes the callee may write without listing them in modifies: by its (checked) frame condition
+	// every object that existed before the call is unchanged there, objects it allocated are arbitrary
+	var framed []string
+	for cls := range e.staticWrites(callee) {
+		listed := false
+		for _, m := range sp.Modifies {
+			if strings.HasPrefix(cls, m) || strings.HasPrefix(m, cls) {
+				listed = true
+			}
+		}
+		if listed || strings.HasPrefix(cls, "G:") {
+			continue
+		}
+		framed = append(framed, cls)
+		for name, srt := range e.ctx.heapSort {
+			if !strings.HasPrefix(name, cls) || !strings.HasPrefix(string(srt), "(Array Int ") {
+				continue
+			}
+			old := e.heapGet(st, name, srt)
+			nw := e.ctx.fresh("fresh."+name, srt)
+			e.ctx.closed(name, nw, st.alloc)
+			st.heap[name] = e.ctx.def("framed", Mix(old, nw, allocPre))
+		}
+	}
+	if len(framed) > 0 {
+		sort.Strings(framed)
+		e.markFrame(st, allocPre, framed...)
+	}
 	e.havocClasses(st, sp.Modifies)
 	res := e.freshSV("res."+callee.Name(), rt)
 	e.wfAssume(st, res)
@@ -268,9 +298,12 @@ func (e *Exec) applyContract(fr *frame, st *State, ci ssa.CallInstruction, calle
 		}
 	}
 	e.bindResults(vars, callee, sp, res)
-	env2 := &specEnv{into: st, st: st, old: pre, vars: vars, oldVars: vars, pkg: pkgOf(callee)}
+	env2 := &specEnv{noTrace: true, into: st, st: st, old: pre, vars: vars, oldVars: vars, pkg: pkgOf(callee)}
 	for _, en := range sp.Ensures {
 		g, err := e.evalSpecBool(en.Expr, env2)
+		if err == errTraceClause || (err != nil && strings.Contains(err.Error(), errTraceClause.Error())) {
+			continue // describes the callee's internal trace; the caller sees the call as one event
+		}
 		if err != nil {
 			// cannot be assumed: the caller simply knows less
 			e.notes = appendUnique(e.notes, fmt.Sprintf("%s: ensures %s of %s not assumed: %v", cname, en.Label, sp.Name, err))
